@@ -2,6 +2,7 @@ package props
 
 import (
 	"fmt"
+	"sort"
 
 	"verifmc/explore"
 	"verifmc/machine"
@@ -451,7 +452,7 @@ func init() {
 					}
 				}
 			}, func() *c15Env { return &c15Env{} }, c15Check)
-		explore.Product(c.R, "object-pairs-and-rows", explore.PartOpt{History: 64, Bound: "one frame per scene (the emulator instance is reused from scene to scene, LCD off/on in between)", Domain: "two overlapping objects dx,dy in {-7,-4,-1,0,1,4,7} x priority/palette combinations (OAM in X order); ten objects on one line, alone and with later OAM entries on the neighbouring lines"},
+		explore.Product(c.R, "object-pairs-and-rows", explore.PartOpt{History: 64, Bound: "one frame per scene (the emulator instance is reused from scene to scene, LCD off/on in between)", Domain: "two overlapping objects dx,dy in {-7,-4,-1,0,1,4,7} x priority/palette combinations (OAM in X order); ten objects on one line, alone and with later OAM entries on the neighbouring lines; all forty OAM entries in use; visible objects only in the last four OAM slots"},
 			func(yield func(c15Scene) bool) {
 				ds := []int{-7, -4, -1, 0, 1, 4, 7}
 				for _, dx := range ds {
@@ -500,6 +501,31 @@ func init() {
 						if !yield(s) {
 							return
 						}
+					}
+				}
+				// all forty OAM entries in use, eight per row of five rows, ordered by X within each row (the statement's
+				// scenes): every slot of the table, the last ones included, must be scanned
+				for _, y0 := range []uint8{16, 40} {
+					var objs []c15Obj
+					for i := 0; i < 40; i++ {
+						objs = append(objs, c15Obj{y0 + uint8(i/8)*20, uint8(8 + (i%8)*18), uint8(20 + i), uint8(i%3) << 4})
+					}
+					// the statement wants OAM ordered by X: stable order by X keeps rows interleaved but X ascending
+					sort.SliceStable(objs, func(a, b int) bool { return objs[a].X < objs[b].X })
+					s := base
+					s.Objs = objs
+					if !yield(s) {
+						return
+					}
+				}
+				// thirty-six hidden entries (Y = 0) first, the visible objects in the last four slots
+				{
+					objs := make([]c15Obj, 36)
+					objs = append(objs, c15Obj{60, 40, 21, 0x00}, c15Obj{60, 60, 22, 0x10}, c15Obj{100, 90, 23, 0x80}, c15Obj{100, 120, 24, 0x20})
+					s := base
+					s.Objs = objs
+					if !yield(s) {
+						return
 					}
 				}
 			}, func() *c15Env { return &c15Env{} }, c15Check)
